@@ -896,6 +896,33 @@ func c10Class(c *Ctx, p *Prog) {
 				if v {
 					matched[lit] = true
 				}
+			case s.Op == "extract" && s.Idx == 1 && len(s.Args) == 1 && s.Args[0].Op == "lookup" && len(s.Args[0].Args) == 2 && s.Args[0].Args[1].IsFieldLoad(tokF):
+				// membership in a package-level set of token spellings: its keys are read from the package initialiser
+				keys := map[string]bool{}
+				if initFn := fn.Pkg.Func("init"); initFn != nil {
+					eachInstr(initFn, func(_ *ssa.BasicBlock, in ssa.Instruction) {
+						mu, ok := in.(*ssa.MapUpdate)
+						if !ok {
+							return
+						}
+						if ks, ok := constString(mu.Key); ok && strings.Contains(s.Args[0].Args[0].String(), mapGlobalName(mu.Map)) && mapGlobalName(mu.Map) != "" {
+							keys[ks] = true
+						}
+					})
+				}
+				if len(keys) == 0 {
+					c.Undecided(R, "ClassOf:token-set", site, "cannot read the set of byte tokens "+truncate(k, 100))
+					return
+				}
+				for lit := range keys {
+					if !want[lit] {
+						c.Bad(R, "ClassOf:token "+lit, site, "the token "+strconv.Quote(lit)+" is treated as a byte unit; documented are exactly B, MB and bytes")
+						return
+					}
+					if v {
+						matched[lit] = true
+					}
+				}
 			default:
 				c.Bad(R, "ClassOf:predicate", site, "the class is decided by "+k+", not by exact equality of a numerator token with B, MB or bytes: units such as dB or RGB/frame become binary")
 				return
@@ -930,7 +957,7 @@ func c10Class(c *Ctx, p *Prog) {
 	for _, tk := range []string{"B", "MB", "bytes"} {
 		c.Check(seenBin[tk], R, "ClassOf:recognises "+tk, site, "a numerator token "+tk+" makes the unit binary", "no path makes a unit with the numerator token "+strconv.Quote(tk)+" binary: its values are scaled with SI prefixes (1.049M"+tk+" for 2^20) although bytes appear in the numerator")
 	}
-	c.Floor(R, "ClassOf token cases", n, 4)
+	c.Floor(R, "ClassOf token cases", n, 3)
 }
 
 // stripFloatConv peels int->float conversions off an exponent operand.
@@ -942,4 +969,24 @@ func stripFloatConv(v ssa.Value) ssa.Value {
 		}
 		v = cv.X
 	}
+}
+
+// mapGlobalName: the name of the package-level map variable a map value was loaded from ("" if it is not one).
+func mapGlobalName(v ssa.Value) string {
+	if ld, ok := v.(*ssa.UnOp); ok {
+		if g, ok := ld.X.(*ssa.Global); ok {
+			return g.Name()
+		}
+	}
+	if mm, ok := v.(*ssa.MakeMap); ok {
+		// the map literal being built in init: stored into the global afterwards
+		for _, r := range *mm.Referrers() {
+			if st, ok := r.(*ssa.Store); ok {
+				if g, ok := st.Addr.(*ssa.Global); ok {
+					return g.Name()
+				}
+			}
+		}
+	}
+	return ""
 }
